@@ -36,6 +36,10 @@ class EgSpec:
     def shrinkable(self):
         return True
 
+    def expand(self, stream, cases, seed):
+        """optional: derive further cases from the generated ones (order / renaming variants)"""
+        return cases
+
 
 def run_stream(spec, ctx, stream, cases, tag):
     wd = os.path.join(ctx['workdir'], tag)
@@ -165,6 +169,7 @@ def main(spec, argv):
             n = st['quick'] if tier == 'quick' else st['thorough']
             core.harness(ctx['bins'][st['config']], [st['component'], 'gen', '--seed', str(seed), '--count', str(n), '--out', cdir] + st.get('gen_extra', []), timeout=1200)
             gen = [l for l in open(os.path.join(cdir, 'cases.txt')).read().split('\n') if l]
+            gen = spec.expand(st, gen, seed)
             cases, impl, model, mi = run_stream(spec, ctx, st, corpus + gen, tag + '_main')
             evaluations += len(cases)
             # cross-check the extracted checker against the kernel's own evaluation on a few inputs
